@@ -28,7 +28,7 @@ Mains == {SKT[i].id : i \in {j \in 1..Len(SKT) : SKT[j].hk = "main"}}
 Defs  == {SKT[i].id : i \in {j \in 1..Len(SKT) : SKT[j].hk = "def"}}
 ObsOf(id) == LET hits == {k \in 1..Len(T.obs) : T.obs[k].id = id} IN
              IF hits = {} THEN <<>> ELSE T.obs[CHOOSE k \in hits : TRUE].at
-LocatableKinds == {"mark", "bright", "sleep", "blink", "aug", "local", "call", "ret", "if", "elif", "for", "while", "def"}
+LocatableKinds == {"mark", "bright", "sleep", "blink", "aug", "local", "call", "ret", "fwdret", "retf", "if", "elif", "for", "while", "def"}
 Locatable(i) == SKT[i].kind \in LocatableKinds
 
 -----------------------------------------------------------------------------
